@@ -56,7 +56,7 @@ def worker(ctx, job):
         res["states"] += 1
         damaged_bytes = damage.read_dest(cpath)
         for (name, by, rk), is_checked in entries:
-            for dstate in ("absent", "existing", "missing-dir"):
+            for dstate in ("absent", "existing", "missing-dir", "linked-to-content"):
                 for keystate in (("present", "absent") if by == "key" else ("present",)):
                     if keystate == "absent" and (dstate != "absent" or klass not in ("pristine", "bitflip")):
                         continue
@@ -66,6 +66,12 @@ def worker(ctx, job):
                     if dstate == "existing":
                         with open(dest, "wb") as fh:
                             fh.write(prev)
+                    if dstate == "linked-to-content":
+                        # an earlier extraction left a hard link to the content file here; the damage (if any) was
+                        # done in place, so the destination shares the damaged inode
+                        if rk != "link" or not os.path.isfile(cpath) or os.path.islink(cpath):
+                            continue
+                        os.link(cpath, dest)
                     k = key if keystate == "present" else "no-such-key"
                     rep = srv.call({"op": name, "cache": cache, "key": k, "sri": sri, "to": dest})
                     res["evals"] += 1
@@ -109,7 +115,7 @@ def worker(ctx, job):
                     else:
                         if is_checked and klass not in ("pristine", "symlink-identical") and rep["err"].get("variant") == "IntegrityError":
                             # verification failed: the unverified bytes must not be at the destination
-                            allowed = (None,) if dstate != "existing" else (None, prev)
+                            allowed = (None,) if dstate not in ("existing", "linked-to-content") else (None, prev, damaged_bytes)
                             if after not in allowed and after == damaged_bytes and after != data:
                                 V.violation(res, sig + ":unverified-bytes-left", "checked extraction failed verification but left the damaged bytes at the destination",
                                             {"engine": "seqx", "case": case, "reply": rep})
